@@ -87,6 +87,7 @@ def check_tokenizer_read(cx, pr, rep, tk, poll):
 
 def check(repo, rep):
     cx = Ctx(repo)
+    rep.cx = cx
     pr = Protocol(cx, rep)
     if len(pr.inbox) != 1 or pr.stop is None:
         rep.unknown('worker protocol roles not identified')
